@@ -1,0 +1,69 @@
+//go:build verif
+
+// Contracts for the contract-based verification in /verif (comment-only file).
+
+package bfd
+
+//@ # ---- the state machine table of RFC 5880 section 6.2 (diagram) extended with the local administrative events;
+//@ # states: AdminDown=0 Down=1 Init=2 Up=3 (RFC 5880 section 4.1); events: received states 0..3, timer=4, adminUp=5
+//@ spec func fsmNext(s state, e event) state = ite(s == stateAdminDown, ite(e == eventAdminUp, stateDown, stateAdminDown), ite(e == eventAdminDown, stateAdminDown, ite(s == stateDown, ite(e == eventInit, stateUp, ite(e == eventDown, stateInit, stateDown)), ite(s == stateInit, ite(e == eventInit || e == eventUp, stateUp, ite(e == eventTimer, stateDown, stateInit)), ite(e == eventTimer || e == eventDown, stateDown, stateUp)))))
+
+//@ func transition
+//@   props C16
+//@   panics_when !(currState == stateAdminDown || currState == stateDown || currState == stateInit || currState == stateUp) || e < 0 || e > 5
+//@   modifies nothing
+//@   ensures result == fsmNext(currState, e)
+
+//@ # ---- reception of a BFD control packet, RFC 5880 section 6.8.6, written from the RFC text:
+//@ #   "If received state is AdminDown: if bfd.SessionState is not Down: set bfd.SessionState to Down"
+//@ #   "Else: if Down: received Down -> Init, received Init -> Up; if Init: received Init or Up -> Up;
+//@ #          else (Up): received Down -> Down"
+//@ spec func rfcReceive(local state, r state) state = ite(r == stateAdminDown, stateDown, ite(local == stateDown, ite(r == stateDown, stateInit, ite(r == stateInit, stateUp, stateDown)), ite(local == stateInit, ite(r == stateInit || r == stateUp, stateUp, stateInit), ite(r == stateDown, stateDown, stateUp))))
+//@ # detection time expiry (section 6.8.4): Init and Up fall back to Down
+//@ spec func rfcTimeout(local state) state = stateDown
+
+//@ # for a session that is not administratively down the table, fed through remoteStateEvent, is exactly RFC 6.8.6
+//@ lemma receiveFollowsRFC C16: forall local state, r state :: (local == stateDown || local == stateInit || local == stateUp) && r >= 0 && r <= 3 ==> fsmNext(local, ite(r == stateAdminDown, eventTimer, event(r))) == rfcReceive(local, r)
+//@ lemma timeoutFollowsRFC C16: forall local state :: (local == stateDown || local == stateInit || local == stateUp) ==> fsmNext(local, eventTimer) == rfcTimeout(local)
+//@ # the three live states are closed under every received state and under timeouts: no state the session cannot leave
+//@ lemma liveStatesClosed C16: forall local state, r state :: (local == stateDown || local == stateInit || local == stateUp) && r >= 0 && r <= 3 ==> (rfcReceive(local, r) == stateDown || rfcReceive(local, r) == stateInit || rfcReceive(local, r) == stateUp)
+//@ # recovery: whatever the state, a peer that behaves (sends Down, then Init, then Up...) brings the session Up and keeps it Up
+//@ lemma recovers C16: forall local state :: (local == stateDown || local == stateInit || local == stateUp) ==> rfcReceive(rfcReceive(rfcReceive(local, stateDown), stateDown), stateInit) == stateUp && rfcReceive(stateUp, stateUp) == stateUp && rfcReceive(stateUp, stateInit) == stateUp && rfcReceive(rfcReceive(stateDown, stateDown), stateUp) == stateUp
+
+//@ func (*Session).transition
+//@   props C16
+//@   requires s.localState == stateAdminDown || s.localState == stateDown || s.localState == stateInit || s.localState == stateUp
+//@   requires e >= 0 && e <= 5
+//@   # eventAdminDown is the LOCAL administrative event (it parks the session in AdminDown until eventAdminUp);
+//@   # a state received from the peer must not be turned into it (RFC 5880 6.8.6: received AdminDown => Down)
+//@   requires e != eventAdminDown
+//@   modifies s.localState
+//@   ensures s.localState == fsmNext(old(s.localState), e)
+
+//@ # frame assumption: sending a BFD packet does not modify the session
+//@ iface Sender.Send
+//@   modifies nothing
+
+//@ # values travelling through Session.messages come from the gopacket BFD decoder: State is a 2-bit field
+//@ chan Session.messages invariant v.State <= 3
+
+//@ func (*Session).ReceiveMessage
+//@   props C16
+//@   requires msg != nil && msg.State <= 3
+
+//@ func shouldDiscard
+//@   props C16
+//@   requires pkt != nil
+//@   modifies nothing
+
+//@ func (*Session).validateParameters
+//@   props C16
+//@   modifies nothing
+//@   ensures result == nil ==> s.DetectMult != 0 && s.DesiredMinTxInterval > 0 && s.RequiredMinRxInterval > 0 && s.Sender != nil
+
+//@ # the session loop: every state fed to the state machine is legal, and the three live states are never left
+//@ func (*Session).Run
+//@   props C16
+//@   maxpaths 60000
+//@   loop 1 invariant s.localState == stateDown || s.localState == stateInit || s.localState == stateUp
+//@   loop 1 invariant s.Sender != nil && s.DetectMult > 0 && s.desiredMinTXInterval > 0 && s.DesiredMinTxInterval > 0 && s.RequiredMinRxInterval > 0
